@@ -25,7 +25,7 @@ def unspace(s):
 
 
 class Real:
-    __slots__ = ("id", "kind", "src", "in_toks", "parse", "structure", "gen", "out", "valid", "oracle", "family")
+    __slots__ = ("id", "kind", "src", "in_toks", "parse", "structure", "gen", "out", "valid", "dot_ok", "oracle", "family")
 
     def __repr__(self):
         return "Real(%s %s %r parse=%s gen=%s)" % (self.id, self.kind, self.src, self.parse, self.gen)
@@ -48,8 +48,8 @@ def run_real(cases, with_oracle=False):
         r = Real()
         r.id, r.kind, r.src, r.family = c[0], c[1], c[2], c[3]
         assert f[0] == c[0], (f[0], c[0])
-        r.in_toks, r.parse, r.structure, r.gen, r.out, r.valid = f[2], f[3], f[4], f[5], f[6], f[7]
-        r.oracle = f[8] if with_oracle and len(f) > 8 else None
+        r.in_toks, r.parse, r.structure, r.gen, r.out, r.valid, r.dot_ok = f[2], f[3], f[4], f[5], f[6], f[7], f[8]
+        r.oracle = f[9] if with_oracle and len(f) > 9 else None
         out.append(r)
     return out
 
@@ -102,7 +102,9 @@ def first_token_diff(a, b, ctx=10):
 def compare_gen(reals):
     """Model generator (on the structure the real parser produced) vs real generator.
     Returns (n_compared, diffs)."""
-    todo = [r for r in reals if r.parse == "ok"]
+    # domain of the model: member-access operands that are member accesses (C15's own precondition); outside it
+    # `parse_quote!` inside the generator may reject the spliced tokens, which depends on syn's grammar
+    todo = [r for r in reals if r.parse == "ok" and r.dot_ok != "0"]
     lines = ["GEN\t%s\t%s\t%s" % (r.id, r.kind, r.structure) for r in todo]
     outs = run_driver(lines) if lines else []
     diffs = []
